@@ -36,6 +36,10 @@ Outcome guarded_embed(std::vector<int>& indices, VCallbacks& cb, tapkee::Paramet
 // of an earlier projecting method) becomes visible to the checks of the next call.
 tapkee::TapkeeOutput& carried_output();
 
+// the same request through the library's own eigen_*_callback types over a larger matrix (see embed_api.cpp); linear kernel and
+// Euclidean distance only
+Outcome guarded_embed_eigen_subrange(const Eigen::MatrixXd& X, unsigned long seed, tapkee::ParametersSet params);
+
 // classify the in-flight exception (call inside catch(...))
 void classify_current_exception(Outcome& o);
 } // namespace vh
